@@ -104,6 +104,8 @@ class Job:
         self.enforce = attrs.get('enforce')
         self.replace = [x for x in attrs.get('replace', '').split(',') if x]
         self.backend = attrs.get('backend', 'sat')
+        if self.backend == 'sat' and os.environ.get('VERIF_DEFAULT_BACKEND'):
+            self.backend = os.environ['VERIF_DEFAULT_BACKEND']
         self.timeout = int(attrs.get('timeout', 300))
         self.tier = attrs.get('tier', 'quick')
         self.expect = [x for x in attrs.get('expect', '').split(',') if x]
